@@ -23,7 +23,10 @@ content hash / link target), never from what the syncer produced.
   * a run that ends with a failed download/unpack (server fault, EIO) must leave the old tree
     untouched (same names, types, modes, contents, file mtimes, and .etag/.modified);
   * a second sync in a fresh process against the good server must complete without exception and
-    leave exactly the new tree;
+    leave exactly the new tree; a second sync that itself *fails* (truncated tarball / HTTP 404) must
+    leave a complete old or new tree - the one present after the syncer's recovery - and must not touch
+    an intact tree.  A fixed family (kill before/after each of the two swap renames, EIO on the second,
+    first step of the exit cleanup) x {good, truncated, 404} follow-up runs first in every tier;
   * the uninterrupted good run must complete and install exactly the new tree (or, when the stored
     ETag/Last-Modified equals the server's and force is not set, leave the old tree untouched).
 
@@ -71,7 +74,7 @@ LEVEL_NOTE = (
     "build the served blobs, atexit emulation via atexit._clear/_run_exitfuncs in the child."
 )
 RULE = (
-    "case = (scenario, event index k, mode) or (scenario, 'complete') or (scenario, 'midtar'); all points of the dry-run "
+    "case = (scenario, event index k, mode, kind of the next sync) or (scenario, 'complete') or (scenario, 'midtar'); all points of the dry-run "
     "log are run (quick tier: all rename/mkdir/tar points, a seeded sample of the others). non-trivial = the injection fired after at least one mutating event, or the run is a full faulty/"
     "good run whose scenario has a previous tree or a faulty server; distinct = (previous-state kind, server kind, "
     "headers, compression, force, event signature, occurrence, mode)"
@@ -362,6 +365,12 @@ class World:
         lb.srv.blobs[bid] = build_blob(self.new_entries, sc["comp"])
         self.uri = lb.url(sc["server"], bid, sc["comp"])
         self.uri_good = lb.url(sc["server"], bid, sc["comp"], good=True)
+        # what the *next* sync meets: the good tarball, a truncated one (unpack fails) or HTTP 404 (download fails)
+        self.uri_follow = {
+            "good": self.uri_good,
+            "truncated": lb.url(dict(sc["server"], kind="truncated", frac=50), bid, sc["comp"]),
+            "status": lb.url(dict(sc["server"], kind="status", status=404), bid, sc["comp"]),
+        }
         # shim used for the crash inside the tar subprocess
         self.shim = os.path.join(top, "shim")
         os.makedirs(self.shim)
@@ -508,11 +517,24 @@ def _key(sc):
     return f"{sc['prev']}|{s['kind']}|{s['frac'] if s['kind'] in ('truncated', 'corrupt') else ''}|{int(s['etag'])}{int(s['lastmod'])}|{sc['comp']}|{int(sc['force'])}"
 
 
-def follow_up(ctx, world, case, where):
-    """the next sync, in a fresh process, against the good server: must complete and give the new tree"""
+def follow_up(ctx, world, case, where, kind="good"):
+    """the next sync, in a fresh process.  kind "good": it must complete and give the new tree.
+    kind "truncated"/"status": it fails (unpack / download); the tree that is there after the syncer's own
+    recovery must then be a complete old or new tree, and an intact tree must not have been touched."""
     sc = world.sc
     stale = world.stale()
     before = world.state()
+    ph = _phase(sc)
+    if kind != "good":
+        res = crash.dry_run(world.sync_op(world.uri_follow[kind], False), [world.live])
+        if res.status == "died":
+            raise core.HarnessError(f"follow-up sync child died (code {res.code})")
+        st2 = world.state()
+        if st2 not in ("old", "new") or (before in ("old", "new") and st2 != before):
+            ctx.violation(f"{ph}:failed-second-sync-left:{st2}:stale-{stale}:path-{before}", case,
+                          f"{where}: the next sync failed ({kind}: {res.exc}); repository path was '{before}' "
+                          f"(leftovers: {stale}) and is '{st2}' afterwards")
+        return
     # HTTP caching semantics: a tree whose stored validators are current is legitimately left alone
     expect = "new"
     # ("path-missing": the old tree is parked in .gentoo.old; a syncer that puts it back finds it current)
@@ -522,12 +544,12 @@ def follow_up(ctx, world, case, where):
     if res.status == "died":
         raise core.HarnessError(f"follow-up sync child died (code {res.code})")
     if res.status != "completed":
-        ctx.violation(f"{_phase(sc)}:second-sync-failed:stale-{stale}:path-{before}", case,
+        ctx.violation(f"{ph}:second-sync-failed:stale-{stale}:path-{before}", case,
                       f"{where}: follow-up sync did not complete ({res.exc}); leftovers: {stale}; repository path before it: {before}")
         return
     st2 = world.state()
     if st2 != expect:
-        ctx.violation(f"{_phase(sc)}:second-sync-wrong-tree:{st2}:stale-{stale}", case,
+        ctx.violation(f"{ph}:second-sync-wrong-tree:{st2}:stale-{stale}", case,
                       f"{where}: follow-up sync completed but the repository path holds '{st2}', not the {expect} tree")
 
 
@@ -571,12 +593,12 @@ def run_complete(ctx, world):
     return res.events
 
 
-def run_point(ctx, world, events, k, mode):
+def run_point(ctx, world, events, k, mode, follow="good"):
     sc = world.sc
     ev = events[k - 1]
     sig = signature(ev)
     occ = sum(1 for e in events[:k] if signature(e) == sig)
-    case = {"scenario": sc, "point": {"sig": sig, "occurrence": occ}, "mode": mode}
+    case = {"scenario": sc, "point": {"sig": sig, "occurrence": occ}, "mode": mode, "follow": follow}
     world.reset()
     res = crash.inject(world.sync_op(world.uri, sc["force"]), [world.live], k, mode)
     if res.status == "died":
@@ -587,19 +609,23 @@ def run_point(ctx, world, events, k, mode):
     state = world.state()
     performed = k if mode == "after" else k - 1
     ctx.case(case, nontrivial=performed >= 1, classes=_classes(sc) + [f"mode:{mode}", f"state:{state}", f"status:{res.status}",
-             f"ev:{ev['ev']}"], key=_key(sc) + f"|{sig}|{occ}|{mode}")
+             f"ev:{ev['ev']}", f"follow:{follow}"], key=_key(sc) + f"|{sig}|{occ}|{mode}|{follow}")
     ph = _phase(sc)
     where = f"{mode} at event {k}/{len(events)} [{sig}] (child {res.status}{': ' + res.exc if res.exc else ''})"
     good = sc["server"]["kind"] == "good" and not world.noop_expected()
     if state not in ("old", "new"):
-        ctx.violation(f"{ph}:{state}@{sig}:{mode}", case, f"{where}: repository path is '{state}'; leftovers: {world.stale()}")
+        bsig, bmode = sig, mode
+        if mode == "after" and ev["ev"] == "os.rename" and k < len(events):
+            # dying right after rename k returned is the window "before event k+1": one root cause, one bucket
+            bsig, bmode = signature(events[k]), "before"
+        ctx.violation(f"{ph}:{state}@{bsig}:{bmode}", case, f"{where}: repository path is '{state}'; leftovers: {world.stale()}")
     elif state == "new" and not good:
         ctx.violation(f"{ph}:new-tree-from-faulty-download@{sig}:{mode}", case, f"{where}: new tree installed")
     elif state == "old" and res.status == "raised" and sc["prev"] != "absent":
         ok, why = world.old_untouched()
         if not ok:
             ctx.violation(f"{ph}:failed-sync-touched-tree@{sig}:{mode}", case, f"{where}: previous tree modified: {why}")
-    follow_up(ctx, world, case, where)
+    follow_up(ctx, world, case, where, follow)
 
 
 def run_midtar(ctx, world):
@@ -637,11 +663,69 @@ def run_scenario(ctx, lb, sc, idx, limit=None, pick=None):
             for k, mode in pts:
                 if ctx.out_of_time():
                     break
-                run_point(ctx, world, events, k, mode)
+                swap = events[k - 1]["ev"] == "os.rename" and _role(events[k - 1].get("path")) in ("base", "update")
+                if limit is None and swap:
+                    follows = FOLLOW  # thorough: the swap points meet every kind of next sync
+                else:
+                    r = pick.random() if pick is not None else 1.0
+                    follows = ("truncated",) if r < 0.15 else ("status",) if r < 0.3 else ("good",)
+                for f in follows:
+                    run_point(ctx, world, events, k, mode, f)
             if sc["server"]["kind"] == "good" and any(signature(e) == "subprocess.Popen:tar" for e in events):
                 run_midtar(ctx, world)
     finally:
         lb.srv.blobs.pop(f"b{idx}", None)
+        shutil.rmtree(world.top, ignore_errors=True)
+
+
+FOLLOW = ("good", "truncated", "status")
+_T1 = {"files": [0, 3, 5], "extras": ["symlink"], "salt": 1}
+_T2 = {"files": [1, 3, 7], "extras": ["emptydir"], "salt": 2}
+CORE = {  # follow-up kind -> fixed scenario (an updating sync over a non-empty previous tree)
+    "good": {"comp": "gz", "prev": "plain", "old": _T1, "new": _T2, "force": False,
+             "server": {"kind": "good", "frac": 50, "status": 404, "etag": True, "lastmod": True}},
+    "truncated": {"comp": "bz2", "prev": "synced-stale", "old": _T1, "new": _T2, "force": False,
+                  "server": {"kind": "good", "frac": 50, "status": 404, "etag": True, "lastmod": False}},
+    "status": {"comp": "xz", "prev": "plain", "old": _T2, "new": _T1, "force": True,
+               "server": {"kind": "good", "frac": 50, "status": 404, "etag": False, "lastmod": False}},
+}
+
+
+def core_points(events):
+    """the small deterministic family every run visits first: dying around the two renames of the tree swap, after
+    the last rename (new tree in place, old one still parked, exit handlers never run) and at the first step of
+    the exit-time cleanup"""
+    pts = []
+    first_cleanup = None
+    for ev in events:
+        sig = signature(ev)
+        if sig in ("os.rename:base->old", "os.rename:update->base"):
+            pts += [(ev["k"], "before"), (ev["k"], "after")]
+            if sig == "os.rename:update->base":
+                pts.append((ev["k"], "eio"))
+        elif first_cleanup is None and ev["ev"] in ("os.remove", "os.rmdir") and _role(ev.get("path")).startswith("old"):
+            first_cleanup = ev["k"]
+            pts.append((ev["k"], "before"))
+    return pts
+
+
+def run_core(ctx, lb, follow):
+    sc = CORE[follow]
+    world = World(ctx.fresh_dir("w"), sc, lb, "core")
+    try:
+        world.reset()
+        res = crash.dry_run(world.sync_op(world.uri, sc["force"]), [world.live])
+        if res.status == "died":
+            raise core.HarnessError(f"sync child died (code {res.code})")
+        if res.status != "completed" or world.state() != "new":
+            ctx.violation(f"{_phase(sc)}:good-sync-failed", {"scenario": sc, "point": "complete"},
+                          f"sync from a good tarball: {res.status} {res.exc}, tree '{world.state()}'")
+            return
+        ctx.count("scenarios")
+        for k, mode in core_points(res.events):
+            run_point(ctx, world, res.events, k, mode, follow)
+    finally:
+        lb.srv.blobs.pop("core", None)
         shutil.rmtree(world.top, ignore_errors=True)
 
 
@@ -650,7 +734,10 @@ N_SCEN = {"quick": {"good": (8, 1), "bad": (5, 1)}, "thorough": {"good": (16, 12
 
 def plan(tier, seed):
     tasks = []
-    only = os.environ.get("VF_C47_ONLY", "")  # development aid: "good" or "bad"
+    only = os.environ.get("VF_C47_ONLY", "")  # development aid: "good", "bad" or "core"
+    if not only or only == "core":
+        for f in FOLLOW:  # first: kill points around the tree swap x what the next sync does
+            tasks.append({"task": "core", "follow": f})
     for grp in ("bad", "good"):  # the faulty-server scenarios have the shortest event logs: cheap cases first
         if only and grp != only:
             continue
@@ -680,16 +767,19 @@ def warm_up(ctx, lb):
     shutil.rmtree(w.top, ignore_errors=True)
 
 
-def run_task(ctx, task, grp, n, part):
+def run_task(ctx, task, grp=None, n=0, part=0, follow=None):
     lb = Loopback()
     try:
         warm_up(ctx, lb)
+        if task == "core":
+            run_core(ctx, lb, follow)
+            return
         counter = [0]
 
         import random
 
         pick = random.Random(ctx.seed * 7919 + part * 101 + (0 if grp == "good" else 50))
-        limit = 18 if ctx.tier == "quick" else None
+        limit = 12 if ctx.tier == "quick" else None
 
         def one(sc):
             counter[0] += 1
@@ -724,7 +814,7 @@ def replay(ctx, case):
                 if signature(ev) == pt["sig"]:
                     n += 1
                     if n == pt["occurrence"]:
-                        run_point(ctx, world, res.events, ev["k"], case["mode"])
+                        run_point(ctx, world, res.events, ev["k"], case["mode"], case.get("follow", "good"))
                         break
             else:
                 ctx.count("replay_event_absent")
